@@ -20,7 +20,9 @@ RULE = ('Hypothesis draws a random DAG over 1..7 flow steps (drawn edge '
         '`processes` and 0..2 under `steps` without flow entry, the whole '
         'compartment nested at depth 0..2 (dependencies are sibling-relative, '
         'the tick variable is reached through ".." paths), 1..2 ticking '
-        'processes with different timesteps and 1..3 run_for/update calls. '
+        'processes with different timesteps and 1..3 run_for/update calls; '
+        'in a third of the cases one flow step also issues an _add in every '
+        'phase (a structural update from inside a layer). '
         'Every step stamps done/<name> := tick (the number of process updates '
         'applied so far) and records the stamps it sees. Oracle over the event '
         'log: one phase at construction and one after every batch, never in '
@@ -65,7 +67,10 @@ def strategy_(draw, tier):
             'order': list(order), 'ticks': ticks, 'calls': calls,
             'dotdot': draw(st.integers(0, 9)) == 0,
             # a process that always returns an empty update
-            'empty_ts': draw(st.sampled_from([None, None, 0.5, 0.75, 1.25]))}
+            'empty_ts': draw(st.sampled_from([None, None, 0.5, 0.75, 1.25])),
+            # one flow step also issues a structural update (_add) in every
+            # phase after the first batch
+            'spawner': draw(st.sampled_from([None, None] + list(range(n))))}
 
 
 def strategy(tier):
@@ -98,9 +103,12 @@ def build(spec, ctx):
     for i, j in spec['edges']:
         deps[j].append(i)
 
+    spawner = spec.get('spawner')
+    spawner = None if spawner is None else fnames[spawner]
+
     def mk(name):
         return kit.DoneStep({'name': name, 'run_id': ctx.run_id,
-                             'all': allnames})
+                             'all': allnames, 'spawn': name == spawner})
     step_topo = {'done': ('done',), 'clock': up + ('clock',)}
     processes = {}
     topology = {}
@@ -127,6 +135,8 @@ def build(spec, ctx):
     for n in ds:
         inner_s[n] = mk(n)
     inner_topo = {n: dict(step_topo) for n in allnames}
+    if spawner is not None:
+        inner_topo[spawner]['pool'] = ('pool',)
     if inner_p:
         merge(processes, nest(comp, inner_p))
     steps = nest(comp, inner_s)
@@ -153,6 +163,8 @@ def run_case(spec):
             res.label('derivers+flow')
         if spec['depth']:
             res.label('nested.%d' % spec['depth'])
+        if spec.get('spawner') is not None:
+            res.label('structural_update_in_layer')
         uses_dotdot = spec['dotdot'] and spec['depth'] > 0 and spec['edges']
         if uses_dotdot:
             res.label('flow.dotdot_dependency')
